@@ -1286,6 +1286,7 @@ def OP_LOOP(tape: Tape, stack: Stack, cache: dict) -> None:
         sert(count < tape.callstack_limit, 'OP_LOOP limit exceeded')
         run_tape(subtape, stack, cache, additional_flags={**tape.flags})
         if 'returned' in cache:
+            del cache['returned']
             return
         subtape.reset_pointer()
         count += 1
